@@ -107,7 +107,8 @@ JustDid(e) == l > 1 /\ Prev.ev = e
 SendRound == JustDid("Send") /\ Prev.p \in Honest /\ st[Prev.p].running /\ ~st[Prev.p].decided
                => Prev.m.round <= rmax[Prev.p]
 SniffBases(s) == UNION {{Strip(MsgOf(x.m))} \cup {Norm(BaseOf(b)) : b \in SeqToSet(x.m.just)} : x \in SeqToSet(s.msgs)}
-Authentic == JustDid("Sniff") => \A b \in SniffBases(Prev) : b.src \in Honest => b \in HonestSent
+\* (the member's own messages are looped back inside the component and need not have reached the wire: a crashed member)
+Authentic == JustDid("Sniff") => \A b \in SniffBases(Prev) : (b.src \in Honest /\ b.src # Prev.p) => b \in HonestSent
 TimelyDecision == (ended /\ Timely /\ Cfg.timer = "eager") =>
                      \A p \in Running(st) : st[p].decided => dtime[p] <= 2 * Cfg.roundms * rmax[p]
 BoundedDecisionT == Timely => BoundedDecision
